@@ -56,10 +56,14 @@ func (c combo) String() string {
 // algorithm/size combinations whose keys the library generates (RSA: 1024 for speed, one 2048)
 func genCombos() []combo {
 	cs := []combo{{dns.RSASHA1, 1024, 65537, false}, {dns.RSASHA256, 1024, 65537, false}, {dns.RSASHA512, 1024, 65537, false}, {dns.RSASHA256, 2048, 65537, false},
-		{dns.ECDSAP256SHA256, 256, 0, false}, {dns.ECDSAP384SHA384, 384, 0, false}, {dns.ED25519, 256, 0, false}}
+		{dns.ECDSAP256SHA256, 256, 0, false}, {dns.ECDSAP384SHA384, 384, 0, false}, {dns.ED25519, 256, 0, false},
+		// sizes that are not a multiple of 8: the modulus has a partial leading octet
+		{dns.RSASHA256, 1031, 65537, false}, {dns.RSASHA512, 1028, 65537, false}}
 	if hx.Thorough() { // fresh keys at the size boundaries too (4096 is the largest size Generate supports)
 		cs = append(cs, combo{dns.RSASHA1NSEC3SHA1, 1024, 65537, false}, combo{dns.RSASHA256, 1032, 65537, false},
-			combo{dns.RSASHA512, 4088, 65537, false}, combo{dns.RSASHA256, 4096, 65537, false})
+			combo{dns.RSASHA512, 4088, 65537, false}, combo{dns.RSASHA256, 4096, 65537, false},
+			combo{dns.RSASHA1, 1025, 65537, false}, combo{dns.RSASHA1NSEC3SHA1, 1100, 65537, false},
+			combo{dns.RSASHA256, 2049, 65537, false}, combo{dns.RSASHA512, 4095, 65537, false})
 	}
 	return cs
 }
@@ -286,14 +290,24 @@ type keyLife struct {
 
 func newKeyLife() *keyLife { return &keyLife{cache: map[string]*realKey{}} }
 
-func generate(c combo) *realKey {
+// generate calls the library's Generate.  A supported size must yield a key: an error or a panic is an
+// observation about the library (bad = "fails" | "panics"), never a harness failure.
+func generate(c combo) (rk *realKey, bad, what string) {
 	k := &dns.DNSKEY{Hdr: dns.RR_Header{Name: keyOwner, Rrtype: dns.TypeDNSKEY, Class: dns.ClassINET, Ttl: 3600},
 		Flags: 256, Protocol: 3, Algorithm: c.alg}
-	p, err := k.Generate(c.bits)
-	if err != nil {
-		hx.Die("Generate(%v): %v", c, err)
+	var p crypto.PrivateKey
+	var err error
+	if pan := hx.Catch(func() { p, err = k.Generate(c.bits) }); pan != "" {
+		return nil, "panics", pan
 	}
-	return &realKey{pub: k, priv: p, std: p.(crypto.Signer).Public()}
+	if err != nil {
+		return nil, "fails", err.Error()
+	}
+	sg, ok := p.(crypto.Signer)
+	if !ok {
+		return nil, "fails", fmt.Sprintf("Generate returned a %T", p)
+	}
+	return &realKey{pub: k, priv: p, std: sg.Public()}, "", ""
 }
 
 func provided(c combo, s crypto.Signer) *realKey {
@@ -332,21 +346,24 @@ func makeProvided(c combo, id int) *realKey {
 	return provided(c, makeRSA(c.bits, []int{65537, 3, 16777217}[id%3]))
 }
 
-func (kl *keyLife) key(c combo, id int, origin string, fresh bool) *realKey {
-	make1 := func() *realKey {
+func (kl *keyLife) key(c combo, id int, origin string, fresh bool) (rk *realKey, bad, what string) {
+	make1 := func() (*realKey, string, string) {
 		if origin == "gen" {
 			return generate(c)
 		}
-		return makeProvided(c, id)
+		return makeProvided(c, id), "", ""
 	}
 	if fresh {
 		return make1()
 	}
 	ck := fmt.Sprintf("%v#%d#%s", c, id, origin)
 	if kl.cache[ck] == nil {
-		kl.cache[ck] = make1()
+		if rk, bad, what = make1(); bad != "" {
+			return nil, bad, what
+		}
+		kl.cache[ck] = rk
 	}
-	return kl.cache[ck]
+	return kl.cache[ck], "", ""
 }
 
 // ------------------------------------------------------------------ the executor
@@ -382,13 +399,18 @@ func (kl *keyLife) newRun(c combo, fresh bool) *klRun {
 	return &klRun{kl: kl, c: c, fresh: fresh, keys: map[int]*realKey{}}
 }
 
-func (r *klRun) gen(id int) {
-	r.keys[id] = r.kl.key(r.c, id, "gen", r.fresh)
-	r.hs = append(r.hs, handle{r.keys[id], r.keys[id].priv, false})
+func (r *klRun) gen(id int) (bad, what string) {
+	k, bad, what := r.kl.key(r.c, id, "gen", r.fresh)
+	if bad != "" {
+		return bad, what
+	}
+	r.keys[id] = k
+	r.hs = append(r.hs, handle{k, k.priv, false})
+	return "", ""
 }
 
 func (r *klRun) provide(id int) {
-	r.keys[id] = r.kl.key(r.c, id, "ext", r.fresh)
+	r.keys[id], _, _ = r.kl.key(r.c, id, "ext", r.fresh)
 	r.texts = append(r.texts, text{r.keys[id].text, r.keys[id]})
 }
 
@@ -459,7 +481,10 @@ func (kl *keyLife) behaviour(v *vec, c combo, fresh bool, sum *hx.Summary) {
 	for _, o := range v.Ops {
 		switch o.Op {
 		case "gen":
-			r.gen(o.Key)
+			if bad, what := r.gen(o.Key); bad != "" {
+				sum.Mis("keylife/generate-"+bad+":"+alg, fmt.Sprintf("Generate(%d) for %s: %s", c.bits, dns.AlgorithmToString[c.alg], what), v)
+				return
+			}
 		case "provide":
 			r.provide(o.Key)
 		case "export":
@@ -585,8 +610,9 @@ type evKL struct {
 	Ok  bool   `json:"ok"`
 	Alg string `json:"alg"` // the algorithm/size combination
 	// export / import / sign: the real call returned an error (the specification has no such outcome)
-	Failed bool   `json:"failed"`
-	Err    string `json:"err"`
+	Failed   bool   `json:"failed"`
+	Err      string `json:"err"`
+	ErrClass string `json:"errclass"` // kl.gen: "fails" | "panics"
 }
 
 // a signature made during a key life, with everything the specification needs to rebuild the signed octets
@@ -661,7 +687,11 @@ func (kl *keyLife) recordRun(rnd *mrand.Rand, w *hx.Writer, seen map[string]bool
 				w.Emit(evKL{Ev: "kl.provide", Key: id, Alg: alg})
 				trace += "p"
 			} else {
-				r.gen(id)
+				if bad, what := r.gen(id); bad != "" {
+					w.Emit(evKL{Ev: "kl.gen", Key: id, Alg: alg, Failed: true, Err: what, ErrClass: bad})
+					seen["kl"+alg+trace+"G"] = true
+					return
+				}
 				w.Emit(evKL{Ev: "kl.gen", Key: id, Alg: alg})
 				trace += "g"
 			}
@@ -717,7 +747,10 @@ func (kl *keyLife) rerunStep(r *klRun, e *anyEv, w *hx.Writer) *klRun {
 	alg := r.c.String()
 	switch e.Ev {
 	case "kl.gen":
-		r.gen(num(e.Key))
+		if bad, what := r.gen(num(e.Key)); bad != "" {
+			w.Emit(evKL{Ev: e.Ev, Key: num(e.Key), Alg: alg, Failed: true, Err: what, ErrClass: bad})
+			return r
+		}
 		w.Emit(evKL{Ev: e.Ev, Key: num(e.Key), Alg: alg})
 	case "kl.provide":
 		r.provide(num(e.Key))
